@@ -818,6 +818,24 @@ def _vec_push(m, q, args, callee):
     m.load(args[0]).items.append(args[1]); return UNIT
 
 
+@_m(PATH_MODELS, ('Vec', 'dedup'))
+def _vec_dedup(m, q, args, callee):
+    """std: removes consecutive elements that compare equal (PartialEq; IEEE == for floats), keeping the first of each run"""
+    v = m.load(args[0])
+    out = []
+    for it in v.items:
+        if out:
+            a, b = out[-1], it
+            if not (isinstance(a, Sc) and isinstance(b, Sc)):
+                raise Unsupported('Vec::dedup on non-scalar elements')
+            same = z3.fpEQ(a.t, b.t) if a.ty in ('f32', 'f64') else (a.t == b.t)
+            if m.branch(same):
+                continue
+        out.append(it)
+    v.items[:] = out
+    return UNIT
+
+
 @_m(PATH_MODELS, ('Vec', 'len'), ('slice', 'len'), ('[T]', 'len'))
 def _len(m, q, args, callee):
     return usize(len(seq_of(m, args[0])[0]))
